@@ -94,3 +94,19 @@ c10_h!(c10_prune_mixed_kinds, {
 //@ bound: one property column, two nodes; NaN excluded here (see the NaN harness)
 //@ oracle: pruning soundness against the filter semantics (the filter's equality is |a-b| < EPSILON)
 c10_h!(c10_prune_float_float, { let p = pred(); let m = prune_sound(&p, 3, 3, 3, true); kani::cover!(m); std::mem::forget(p); });
+
+//@ property: C10
+//@ tier: quick
+//@ cap_s: 900
+//@ mem_gb: 12
+//@ stubs: parking_lot slow paths, alloc::fmt::format, RandomState::new, regex::Regex::new
+//@ encodes: as c10_prune_int_int, with the Int64/Float64 cross comparisons of property.rs and zone_map.rs compare_values
+//@ symbolic: a column holding an Int64 and a Float64 (all i64, all non-NaN doubles), probed with an Int64 literal and with a Float64 literal
+//@ bound: one property column, two nodes, both insertion orders
+//@ oracle: pruning soundness against the filter semantics for a column that mixes integers and floats
+c10_h!(c10_prune_int_float_column, {
+    let p = pred();
+    let m1 = prune_sound(&p, 2, 3, 2, true); let m2 = prune_sound(&p, 3, 2, 3, true);
+    kani::cover!(m1 && m2);
+    std::mem::forget(p);
+});
